@@ -119,3 +119,58 @@ def add_resize_outputs_effect_target(eng):
     mutation = LoopSpec(invariant=[], modifies=["Value._producer", "Value._index", "Node.device_configurations", "$alloc"])
     t.loops = {1: mutation, 2: mutation}
     eng.add_target(t)
+
+
+def add_graph_nodelist_effect_targets(eng):
+    """Graph.append / extend / insert_after / insert_before / remove: `a rejected edit changes nothing` - every ValueError exit
+    (a node of another graph, a node that is not in this graph, an unsafe removal) precedes the first store and the first call
+    that could change IR state: the graph reference of every pre-existing node, every node's inputs and the name authority's
+    counters are what they were, and no IR-mutating call has run.  Effect contracts in lenient mode (validate-before-mutate);
+    what a successful call does to the node list is the DoublyLinkedSet contract (C11)."""
+    from pyvc.types import BOOL, TSeq
+
+    from pyvc.core import Exc
+    from pyvc.types import VOpaque, VRef
+
+    def ir_mutator(what):
+        def impl(e, p, args, kwargs, node):
+            # an IR mutation: the path is dirty from here on, the IR heap is arbitrary afterwards, and the call may raise
+            p.ghost["$ir_dirty"] = f"{what} at L{node.lineno}"
+            e.havoc_heap(p, None)
+            return [(p, VOpaque("result of " + what)), (p.copy(), Exc("AnyException", f"L{node.lineno}:{what}"))]
+        return impl
+
+    def setup(e, p, env):
+        e.lenient = True
+        NA = "onnx_ir._name_authority"
+        for m in ("register_or_name_node", "register_or_name_value"):
+            e.functions[f"{NA}.NameAuthority.{m}"] = FnDecl(f"NameAuthority.{m}", "builtin", impl=ir_mutator(f"name authority {m}"))
+        LLM = "onnx_ir._linked_list"
+        for m in ("append", "extend", "remove", "insert_after", "insert_before"):
+            e.functions[f"{LLM}.DoublyLinkedSet.{m}"] = FnDecl(f"DoublyLinkedSet.{m}", "builtin", impl=ir_mutator(f"node list {m}"))
+        e.functions[f"{CORE}.Node.graph#setter"] = FnDecl("Node.graph=", "builtin", impl=ir_mutator("Node.graph setter"))
+        e.functions[f"{CORE}.Node.replace_input_with"] = FnDecl("Node.replace_input_with", "builtin", impl=ir_mutator("replace_input_with"))
+        orig_iter = e.iter_extra
+
+        def iter_extra(v, p2):
+            if isinstance(v, VRef) and v.cls in ("GraphOutputs", "GraphInputs"):
+                return e.to_seq(e.read_field(p2, v, "data"), p2)
+            return orig_iter(v, p2)
+        e.iter_extra = iter_extra
+    exc = {"ValueError": ["unchanged_old('Node._graph', 'Node._inputs', 'Node._name', 'Value._name', 'NameAuthority._node_counter', "
+                          "'NameAuthority._value_counter')", "ir_clean()"]}
+    N = TRef("Node")
+    for meth, params, containers, dead in (
+            ("append", dict(node=N), (), ()),
+            ("extend", dict(nodes=TSeq(N)), ("nodes",), ()),
+            ("insert_after", dict(node=N, new_nodes=TSeq(N)), ("new_nodes",), ("new_nodes = (new_nodes,)",)),
+            ("insert_before", dict(node=N, new_nodes=TSeq(N)), ("new_nodes",), ("new_nodes = (new_nodes,)",)),
+            ("remove", dict(nodes=TSeq(N), safe=BOOL), ("nodes_set", "graph_outputs"), ("nodes_set: AbstractSet[Node] = {nodes}",))):
+        t = Target(f"Graph.{meth}[effects]", mod=CORE, qual=f"Graph.{meth}", self_cls="Graph", params=params, requires=[], ensures=[],
+                   setup=setup, raises=exc, raises_default=[], assert_mode="raise")
+        t.local_containers = containers
+        t.dead = list(dead)
+        if meth == "remove":
+            # loop 0 validates (default frame: store-free, checked); loops 1 and 2 are the mutation
+            t.loops = {1: LoopSpec(invariant=[], modifies=None), 2: LoopSpec(invariant=[], modifies=None)}
+        eng.add_target(t)
